@@ -15,7 +15,7 @@ use std::task::{Context, Poll};
 use asynchronous_codec::FramedRead;
 use futures::{AsyncRead, StreamExt};
 use hcore::{Args, Out, Rng};
-use libp2p_gossipsub::{verif_c31 as hook, ValidationMode};
+use libp2p_gossipsub::{verif_c31 as hook, TopicHash, ValidationMode};
 
 // ---------------------------------------------------------------- protobuf (hand-written encoder)
 
@@ -117,6 +117,47 @@ struct Limits {
     max: usize,
     mp: usize,
     mc: usize,
+    /// per-topic max_transmit_sizes for the topics t0, t1, t2 (`u` is never configured)
+    pt: [Option<usize>; 3],
+}
+
+const TOPICS: [&str; 4] = ["t0", "t1", "t2", "u"];
+
+impl Limits {
+    fn per_topic(&self) -> HashMap<TopicHash, usize> {
+        self.pt.iter().enumerate().filter_map(|(i, m)| m.map(|m| (TopicHash::from_raw(TOPICS[i]), m))).collect()
+    }
+    fn pt_tok(&self) -> String {
+        let v: Vec<String> = self.pt.iter().enumerate().filter_map(|(i, m)| m.map(|m| format!("{}:{m}", hcore::hex(TOPICS[i].as_bytes())))).collect();
+        if v.is_empty() { "-".into() } else { v.join(",") }
+    }
+    fn parse_pt(tok: &str) -> [Option<usize>; 3] {
+        let mut pt = [None; 3];
+        if tok != "-" {
+            for e in tok.split(',') {
+                let (t, m) = e.split_once(':').unwrap();
+                let name = String::from_utf8(hcore::unhex(t)).unwrap();
+                if let Some(i) = TOPICS.iter().position(|x| *x == name) {
+                    if i < 3 {
+                        pt[i] = Some(m.parse().unwrap());
+                    }
+                }
+            }
+        }
+        pt
+    }
+}
+
+/// a publish message on `topic` whose protobuf encoding has exactly `len` bytes (or the closest
+/// possible length above it)
+fn message_of_len(len: usize, topic: &str, rng: &mut Rng) -> Vec<u8> {
+    for cand in len.saturating_sub(topic.len() + 12)..=len {
+        let m = message(cand, topic, &mut Rng::new(1));
+        if m.len() >= len {
+            return message(cand, topic, rng);
+        }
+    }
+    message(0, topic, rng)
 }
 
 /// an RPC from the builder; `target` = desired encoded length (reached by sizing one message's data)
@@ -135,7 +176,8 @@ fn build_rpc(rng: &mut Rng, target: Option<usize>, n_pub: usize, with_control: b
     for _ in 1..n_pub.max(1) {
         if n_pub > 1 {
             let n = rng.usize(5);
-            r.field(2, &message(n, "t0", rng));
+            let tp = *rng.pick(&TOPICS);
+            r.field(2, &message(n, tp, rng));
         }
     }
     if n_pub >= 1 {
@@ -152,6 +194,7 @@ fn build_rpc(rng: &mut Rng, target: Option<usize>, n_pub: usize, with_control: b
             }
         }
         r.field(2, &message(data_len, "t0", rng));
+        let _ = &TOPICS;
     } else if let Some(t) = target {
         // pad with an unknown length-delimited field
         for cand in t.saturating_sub(r.body.len()).saturating_sub(16)..=t {
@@ -269,7 +312,8 @@ fn err_class(e: &std::io::Error) -> &'static str {
 /// run the real codec over the chunks; returns per chunk the tokens yielded after reading it
 fn run_real(l: &Limits, chunks: &[Vec<u8>]) -> Vec<Vec<String>> {
     let script = Rc::new(RefCell::new(Script { chunks: chunks.to_vec(), next: 0 }));
-    let codec = hook::Codec::new(l.max, ValidationMode::None, HashMap::new(), l.mp, l.mc);
+    // the codec as `ProtocolConfig::upgrade_{in,out}bound` builds it: global max + the per-topic map
+    let codec = hook::Codec::new(l.max, ValidationMode::None, l.per_topic(), l.mp, l.mc);
     let mut framed = FramedRead::new(Reader(script.clone()), codec);
     let mut per_chunk: Vec<Vec<String>> = vec![vec![]; chunks.len()];
     let waker = futures::task::noop_waker();
@@ -282,7 +326,7 @@ fn run_real(l: &Limits, chunks: &[Vec<u8>]) -> Vec<Vec<String>> {
                 let read = script.borrow().next;
                 let slot = read.saturating_sub(1);
                 match item {
-                    Ok(s) => per_chunk[slot].push(format!("ok:{},{}", s.subscriptions, s.messages + s.invalid_messages)),
+                    Ok(s) => per_chunk[slot].push(format!("ok:{},{},{}", s.subscriptions, s.messages + s.invalid_messages, s.invalid_messages)),
                     Err(e) => {
                         per_chunk[slot].push(format!("err:{}", err_class(&e)));
                         // a decode error is terminal for the substream (the handler closes it)
@@ -374,7 +418,7 @@ fn split(rng: &mut Rng, stream: &[u8], frames: &[Vec<u8>], pattern: u64) -> Vec<
 
 fn header(l: &Limits, rpcs: &[Rpc]) -> String {
     let f: Vec<String> = rpcs.iter().map(|r| format!("{}/{}/{}", r.wire().len(), r.body.len(), r.good(l) as u8)).collect();
-    format!("L={},{},{} F={}", l.max, l.mp, l.mc, if f.is_empty() { "-".to_string() } else { f.join(";") })
+    format!("L={},{},{} T={} F={}", l.max, l.mp, l.mc, l.pt_tok(), if f.is_empty() { "-".to_string() } else { f.join(";") })
 }
 
 fn one_case(out: &mut Out, idx: u64, class: &str, l: &Limits, rpcs: &[Rpc], pattern: u64, rng: &mut Rng, raw_tail: &[u8]) {
@@ -396,10 +440,11 @@ pub fn run(args: &Args, out: &mut Out) {
         for (i, (hdr, ops)) in cases.iter().enumerate() {
             let lt = hdr.iter().find_map(|t| t.strip_prefix("L=")).unwrap_or("100,5,50");
             let v: Vec<usize> = lt.split(',').map(|x| x.parse().unwrap()).collect();
-            let l = Limits { max: v[0], mp: v[1], mc: v[2] };
+            let pt = Limits::parse_pt(hdr.iter().find_map(|t| t.strip_prefix("T=")).unwrap_or("-"));
+            let l = Limits { max: v[0], mp: v[1], mc: v[2], pt };
             let chunks: Vec<Vec<u8>> = ops.iter().filter(|o| o[0] == "chunk").map(|o| hcore::unhex(&o[1])).filter(|c| !c.is_empty()).collect();
             let ftok = hdr.iter().find(|t| t.starts_with("F=")).cloned().unwrap_or("F=-".into());
-            out.case(i as u64, &format!("replay nt=1 L={},{},{} {}", l.max, l.mp, l.mc, ftok));
+            out.case(i as u64, &format!("replay nt=1 L={},{},{} T={} {}", l.max, l.mp, l.mc, l.pt_tok(), ftok));
             emit(out, &l, &chunks);
             out.end();
         }
@@ -415,7 +460,7 @@ pub fn run(args: &Args, out: &mut Out) {
                         continue;
                     }
                     let mut rng = Rng::for_case(args.seed ^ 0xC31, idx);
-                    let l = Limits { max, mp: 5, mc: 200 };
+                    let l = Limits { max, mp: 5, mc: 200, pt: [None, if idx % 3 == 0 { Some(max / 2) } else { None }, if idx % 2 == 0 { Some(max + 50) } else { None }] };
                     let t = (max as i64 + d) as usize;
                     let (np, ns) = (1 + rng.usize(2), rng.usize(2));
                     let mut rpcs = vec![build_rpc(&mut rng, Some(t), np, false, ns, false)];
@@ -429,6 +474,71 @@ pub fn run(args: &Args, out: &mut Out) {
             }
         }
     }
+    // per-topic maxima below / equal / above the global max: frames around the global bound and around /
+    // between the per-topic bounds, on configured and unconfigured topics, whole and split
+    for &global in &[100usize, 300] {
+        let configs: [[Option<usize>; 3]; 5] = [
+            [Some(40), Some(global), Some(global + 200)],
+            [None, None, Some(global + 1)],
+            [Some(global - 1), None, Some(4 * global)],
+            [Some(global + 200), Some(global + 100), Some(0)],
+            [None, None, None],
+        ];
+        for pt in configs {
+            let l = Limits { max: global, mp: 5, mc: 200, pt };
+            let biggest = pt.iter().flatten().copied().max().unwrap_or(global);
+            let mut sizes = vec![global - 1, global, global + 1, (global + biggest) / 2, biggest.saturating_sub(1), biggest, biggest + 1];
+            sizes.retain(|x| *x >= 20);
+            sizes.dedup();
+            for &enc in &sizes {
+                for (ti, tp) in TOPICS.iter().enumerate() {
+                    for pattern in [0u64, 1, 3, 4, 5] {
+                        let mut rng = Rng::for_case(args.seed ^ 0x7031, idx);
+                        // one RPC of encoded size `enc` whose single message is on topic `tp`, then a small one
+                        let mut r = Rpc::new();
+                        for cand in enc.saturating_sub(20)..=enc {
+                            let mut probe = Rpc::new();
+                            probe.field(2, &message_of_len(cand, tp, &mut Rng::new(1)));
+                            if probe.body.len() >= enc {
+                                r.field(2, &message_of_len(cand, tp, &mut rng));
+                                break;
+                            }
+                        }
+                        let small = build_rpc(&mut rng, Some(30), 1, false, 0, false);
+                        let _ = ti;
+                        one_case(out, idx, "pertopic-frame", &l, &[r, small], pattern, &mut rng, &[]);
+                        idx += 1;
+                    }
+                }
+            }
+            // messages around each configured topic's own bound (inside frames that fit the global max)
+            for (ti, m) in pt.iter().enumerate() {
+                let Some(m) = *m else { continue };
+                for d in -1i64..=1 {
+                    let len = (m as i64 + d).max(4) as usize;
+                    for pattern in [0u64, 2, 5] {
+                        let mut rng = Rng::for_case(args.seed ^ 0x7032, idx);
+                        let mut r = Rpc::new();
+                        r.field(2, &message_of_len(len, TOPICS[ti], &mut rng));
+                        r.field(2, &message_of_len(len, "u", &mut rng));
+                        r.field(2, &message_of_len(8, TOPICS[ti], &mut rng));
+                        one_case(out, idx, "pertopic-msg", &l, &[r], pattern, &mut rng, &[]);
+                        idx += 1;
+                    }
+                }
+            }
+            // a length prefix announcing a size between the global and the biggest per-topic max
+            if biggest > global + 1 {
+                let mut rng = Rng::for_case(args.seed ^ 0x7033, idx);
+                let mut tail = vec![];
+                varint(((global + biggest) / 2) as u64, &mut tail);
+                tail.extend_from_slice(&[18, 3]);
+                let small = build_rpc(&mut rng, Some(30), 1, false, 0, false);
+                one_case(out, idx, "pertopic-prefix", &l, &[small], 1, &mut rng, &tail);
+                idx += 1;
+            }
+        }
+    }
     let n = args.n(2500, 150_000);
     for i in 0..n {
         let mut rng = Rng::for_case(args.seed, i);
@@ -436,7 +546,18 @@ pub fn run(args: &Args, out: &mut Out) {
             max: *rng.pick(&[100usize, 127, 128, 200, 300, 1000]),
             mp: *rng.pick(&[0usize, 1, 2, 5]),
             mc: *rng.pick(&[0usize, 10, 50, 200]),
+            pt: [None; 3],
         };
+        let mut l = l;
+        for i in 0..3 {
+            l.pt[i] = match rng.below(6) {
+                0 => Some(rng.usize(60)),
+                1 => Some(l.max),
+                2 => Some(l.max + 1 + rng.usize(400)),
+                3 => Some(l.max.saturating_sub(1 + rng.usize(20))),
+                _ => None,
+            };
+        }
         let n_rpcs = 1 + rng.usize(5);
         let mut rpcs = vec![];
         let mut class = "stream";
